@@ -260,11 +260,13 @@ def attrRestrictionOk (ctx : Ctx) (p : Presentation) (referent : String) (info :
         | none =>
           match info.names with
           | some names =>
-            match p.groups.lookup referent with
-            | none => false
-            | some g =>
+            -- a group the holder left unrevealed has no values to compare; a referent in neither map is an error
+            let g := p.groups.lookup referent
+            if g.isNone && !(keys p.unrevealed).contains referent then false
+            else
               -- later duplicates of a name overwrite earlier ones in the Rust map: same value anyway
-              Query.eval Ident.isLegacyDid (names.map (fun n => (n, (g.values.lookup n).map (·.1)))) f q
+              Query.eval Ident.isLegacyDid
+                (names.map (fun n => (n, (g.bind (fun g => g.values.lookup n)).map (·.1)))) f q
           | none => false
 
 /-- value map of a predicate referent: the predicate's attribute (unrevealed) overlaid by the raw
